@@ -51,6 +51,7 @@ fn main() {
         ("replay", "stream") => props::stream::replay(&args),
         ("drive", "stream") => props::stream::drive(&args),
         ("drive", "families") => props::families::drive(&args),
+        ("drive", "bigsst") => props::bigsst::drive(&args),
         ("replay", "datatype") => props::datatype::replay(&args),
         ("replay", "stored_formula") => props::stored_formula::replay(&args),
         ("drive", "stored_formula") => props::stored_formula::drive(&args),
